@@ -11,6 +11,17 @@ E3 = "bounded exhaustive enumeration of inputs/programs/configurations executed 
 
 # pid -> (technique, level text, level note, design ref)
 CHECKS = {
+    "C12": (
+        E3 + " (component graphs)",
+        "Every forest of component subtrees below the grid connection with up to 5-7 nodes (meters nested to any depth, battery "
+        "inverters with 1-2 batteries, PV inverters, EV chargers, metered CHPs; with/without grid meter; several grid successors; "
+        "dedicated, mixed and load-only meters), isomorphic duplicates removed, two id assignments, allow_fallback off and on, that the "
+        "real graph validation accepts: the seven real formula generators' step lists are checked to be linear and evaluated on one "
+        "unit of power per device / unmetered load and a combined vector against a physics model; fallback formulas equal their "
+        "primary's reading; grid = consumer + producer + battery + EV.",
+        "Steps evaluated with the real step classes on injected readings (no streaming); linearity makes the unit vectors decisive.",
+        "DESIGN.md §3 C12",
+    ),
     "C20": (
         E1,
         "The real DataSourcingActor over the fake microgrid API and a real ChannelRegistry: per plan (two metrics and two namespaces of "
